@@ -12,6 +12,5 @@ Extraction "../ocaml/c16/model.ml"
   doc_ser_row_by_name doc_typeck_row_by_name doc_deser_row_by_name
   doc_ser_value_ordered doc_typeck_value_ordered doc_ser_row_ordered doc_typeck_row_ordered
   doc_deser_value_ordered doc_deser_row_ordered vordered_plain rordered_plain
-  back_value rback_value outcome_agrees cells_eqb flat_nonempty rdesc_wf
-  has_empty_flatten known_empty_flatten rdesc_nodup
+  back_value rback_value outcome_agrees cells_eqb rdesc_wf
   enc_signed dec_signed. (* the last two only pull the Z datatype needed by ocaml/common/conv.ml *)
